@@ -10,7 +10,9 @@ from aioftp.common import ThrottleStreamIO
 from harness import judge, report, simnet, vloop
 
 KINDS = ["", "plain", "-dash", " lead", "123start", "250 looks final", "250-looks cont", "251 other final", "251-other cont",
-         "12 two", "é ж", "a  b", "x" * 40, "٣٣٣ d", "250", "250-", "€uro", "名前 x", "\U0001F600 smile", "aфb", "ab€"]
+         "12 two", "é ж", "a  b", "x" * 40, "٣٣٣ d", "250", "250-", "€uro", "名前 x", "\U0001F600 smile", "aфb", "ab€",
+         # characters str.splitlines() treats as line boundaries although the protocol does not
+         "v\x0bt", "f\x0cf", "fs\x1cgs\x1drs\x1ex", "nel\x85x", "ls\u2028ps\u2029x"]
 
 
 def chars(s):
@@ -125,11 +127,18 @@ def run(tier, seed):
     chk = report.Check("C06", tier, seed)
     rng = random.Random(seed)
     cases = []
-    for encoding in ("utf-8", "cp1251"):
+    def fits(line, encoding):
+        try:
+            line.encode(encoding)
+            return True
+        except UnicodeEncodeError:
+            return False
+
+    for encoding in ("utf-8", "cp1251", "latin-1"):
         rig = Rig(encoding)
         try:
             for code, lines, lst in gen_replies(tier, rng):
-                if encoding != "utf-8" and any(not all(ord(ch) < 128 or "а" <= ch <= "я" for ch in l) for l in lines):
+                if encoding != "utf-8" and not all(fits(l, encoding) for l in lines):
                     continue
                 second = ("220", [rng.choice(["ok", "", "-x", "220 y"])], False) if rng.random() < 0.7 else ("226", ["a", "226 b", "c"], True)
                 replies = [(code, lines, lst), second]
